@@ -20,7 +20,19 @@ def seq(profile, q, t, **kw):
     return d
 
 
+def eng(engine, profile, q, t, **kw):
+    d = {"engine": engine, "profile": profile, "n": {"quick": q, "thorough": t}}
+    d.update(kw)
+    return d
+
+
 PLAN = {
+    "C13": {"runs": [eng("xfer", "c13", 100, 1500)],
+            "trusted_extra": ["encoding/gob is modelled as the identity on {K,V,E,C} records decoded into fresh variables"]},
+    "C14": {"runs": [eng("xfer", "c14", 60, 600)],
+            "trusted_extra": ["net/http, encoding/gob, reflect and the FNV fingerprint of a type are trusted; the fingerprint is an arbitrary function in the theorems"]},
+    "C15": {"runs": [eng("inval", "c15", 300, 6000)]},
+    "C17": {"runs": [eng("inval", "c17", 90, 900)]},
     "C07": {"runs": [seq("c07", 240, 6000)],
             "explanation": "refinement of the slot-keyed store to a plain map with per-entry expiry, for every hash function and every op sequence"},
     "C09": {"runs": [seq("c09", 200, 4000)]},
